@@ -271,6 +271,13 @@ def run(ctx, eng):
            '(found %s): after an upgrade the client continues with 3, the '
            'server with 2' % vals, node=fi.node)
     ctx.assume('hyperframe\'s serialize_body/parse_body are inverse')
+    cm.include(ctx, eng, 'C04', {'FLOW.init'},
+               'the settings handed over in HTTP2-Settings are never '
+               'acknowledged by a frame: stream 1 gets the announced window '
+               'only because a new stream reads the current local value, not '
+               'a copy refreshed at ACK time')
+    cm.include(ctx, eng, 'C03', {'FLOW.init'},
+               'likewise for the server\'s view of the client\'s window')
     cm.include(ctx, eng, 'C09', {'ORD.id-bookkeeping', 'ARITH.id-low',
                                  'OWN.creators'},
                'stream 1 is used up by the upgrade on both sides: every '
